@@ -9,6 +9,7 @@ mod c15;
 mod c16;
 mod c17;
 mod c18;
+mod kconf;
 mod mapwatch;
 mod ops;
 mod opsworld;
@@ -238,6 +239,17 @@ fn check(prop: &str, tier: &str) -> i32 {
     }
     let exe = std::env::current_exe().unwrap();
     let scratch = scratch_dir();
+    // K-conf first: the simulated kernel must agree with the real one.
+    let kconf = Command::new(&exe).arg("kconf").stdin(Stdio::null()).output().expect("running K-conf");
+    let kconf_text = String::from_utf8_lossy(&kconf.stdout).to_string();
+    let kconf_line = kconf_text.lines().last().unwrap_or("").to_string();
+    if !kconf.status.success() {
+        for l in kconf_text.lines() {
+            println!("{l}");
+        }
+        println!("MACHINERY: the simulated kernel disagrees with the real kernel (K-conf); no verdict");
+        return 2;
+    }
     let run_id = format!("{prop}-{tier}-{}", std::process::id());
     let n = nworkers();
     let mut total_exec = 0u64;
@@ -442,6 +454,7 @@ fn check(prop: &str, tier: &str) -> i32 {
             "caps_hit": capped,
             "known_findings_seen": known_seen,
             "workers": n,
+            "kconf": kconf_line,
         },
         "assumptions": props::assumptions(prop),
         "wall_s": wall,
@@ -472,6 +485,15 @@ fn main() {
             init_process();
             println!("interposer live");
             0
+        }
+        Some("kconf") => {
+            init_process();
+            let (n, lines, bad) = kconf::run_all(args.get(2).is_some());
+            for b in &bad {
+                println!("MACHINERY: K-conf disagreement: {b}");
+            }
+            println!("K-conf: {n} scenarios, {lines} trace lines compared, {} disagreements", bad.len());
+            if bad.is_empty() { 0 } else { 2 }
         }
         _ => {
             eprintln!("usage: a10mc check <prop> <tier> | replay <file> | selftest");
